@@ -225,22 +225,33 @@ def run_case(case, keep_log=False):
             budget = 2_000_000 + 3000 * bound
             T_ = float(ts_t[-1])
 
-            seen = {"n": 0, "last": None}
+            cur = {"trial": None, "mid": None, "n": 0, "state": 0}
 
-            def online(_k, ta, tb):
-                # invariants that are cheapest to judge while the run proceeds (and that bound a runaway loop):
-                # every third (distinct consecutive) request opens a trial (a, b)
-                if seen["last"] == (ta, tb):
-                    return
-                seen["last"] = (ta, tb)
-                k = seen["n"]
-                seen["n"] = k + 1
-                if k % 3 == 0:
-                    if k // 3 > bound:
-                        raise Online(Violation("too_many_trials", {"trials": k // 3, "bound": bound}, k // 3))
-                    if tb != T_ and (tb - ta) < dt_min * (1 - 1e-6) - 2 * _ulp(tb, tdt):
-                        raise Online(Violation("trial_shorter_than_dt_min", {"k": k // 3, "a": fx(ta), "b": fx(tb),
-                                                                             "dt_min": dt_min, "online": True}, k // 3))
+            def online(k, ta, tb):
+                # invariants that are cheapest to judge while the run proceeds (and that bound a runaway loop). The
+                # requests of one trial come in the order opener (a,b), first half (a,mid), second half (mid,b); a
+                # request repeated immediately (a solver asking twice per step) is tolerated at each position.
+                if ta == tb:
+                    return  # degenerate half of a 1-ulp trial (see known finding D7); judged after the run
+                tr, mid, st_ = cur["trial"], cur["mid"], cur["state"]
+                if tr is not None:
+                    if st_ == 1 and (ta, tb) == tr:
+                        return
+                    if st_ in (1, 2) and ta == tr[0] and tb == mid:
+                        cur["state"] = 2
+                        return
+                    if st_ in (2, 3) and ta == mid and tb == tr[1]:
+                        cur["state"] = 3
+                        return
+                cur["trial"] = (ta, tb)
+                cur["mid"] = float(0.5 * (torch.tensor(ta, dtype=tdt) + torch.tensor(tb, dtype=tdt)))
+                cur["state"] = 1
+                cur["n"] += 1
+                if cur["n"] > bound:
+                    raise Online(Violation("too_many_trials", {"trials": cur["n"], "bound": bound}, cur["n"]))
+                if tb != T_ and (tb - ta) < dt_min * (1 - 1e-6) - 2 * _ulp(tb, tdt):
+                    raise Online(Violation("trial_shorter_than_dt_min", {"k": cur["n"] - 1, "a": fx(ta), "b": fx(tb),
+                                                                         "dt_min": dt_min, "online": True}, cur["n"] - 1))
             rec.on_request = online
             with Recorder(conf, script) as R, seams.CallMonitor(budget) as mon:
                 try:
@@ -256,13 +267,17 @@ def run_case(case, keep_log=False):
                                   {"msg": str(e)[:160], "trials_so_far": len(R.errs),
                                    "last_requests": [[fx(x) for x in tr[:2]] for tr in rec.trace[-3:]],
                                    "T": fx(float(ts_t[-1]))}, "run")
-                    if isinstance(e, AssertionError) and "nans" in str(e) and scheme_diverged(stubs.steps_of(rec.trace), len(R.errs)):
+                    if isinstance(e, AssertionError) and "nans" in str(e) and scheme_diverged(list(rec.trace), len(R.errs)):
                         # the library's documented reaction to a diverging scheme (overflow -> nan), confirmed by
                         # re-executing the recorded schedule with public single-step calls: not a controller defect
                         probes["scheme_diverged"] = 1
                         raise Diverged()
                     raise v
-            return ys, stubs.steps_of(rec.trace), R, bound
+            # one request per solver step; if the solver asks twice per step the de-duplicated trace is used instead
+            tr = list(rec.trace)
+            if len(tr) != 3 * len(R.errs) and len(stubs.steps_of(tr)) == 3 * len(R.errs):
+                tr = stubs.steps_of(tr)
+            return ys, tr, R, bound
 
         def scheme_diverged(trace, n_done):
             sde_m = stubs.make_sde(spec, case["dtype"])
